@@ -516,7 +516,7 @@ def baseline():
         for o in r['obligations']:
             for p in o['props']:
                 d = out.setdefault(p, {'clauses': set(), 'tree': repo_state()})
-                if o['verdict'] == 'discharged':
+                if o['verdict'] == 'discharged' and o['kind'] == 'P':
                     d['clauses'].add(o['id'])
     for p in out:
         out[p]['clauses'] = sorted(out[p]['clauses'])
